@@ -196,7 +196,7 @@ def run_seed(args: dict, sandbox: str) -> dict:
         # a custom template directory (beside the output location, inside the watched parent) in a fifth of the histories
         "custom_templates": r.random() < 0.2,
     }
-    res = run_spec({"spec": spec}, sandbox)
+    res = run_spec({"spec": spec, "want_log": args.get("want_log")}, sandbox)
     if not res.get("violations"):
         res.pop("spec", None)
     return res
